@@ -29,6 +29,8 @@ RULE = ("well-formed targets of depth <= 4 with the three x-koreo directives at 
         "bookkeeping, permuted set lists, permuted/extended map lists, ints as equal floats); arbitrary live objects "
         "for the patch case; two to three consecutive passes through the real reconcile against the RFC 7386 "
         "cluster; policies patch/recreate/never/default, owned or not, create overlays that agree with the target; "
+        "templates / inline overlays / overlayRef functions that write apiVersion, kind, metadata.name, metadata.namespace "
+        "(C06's adversarial scenarios without nulls and create overlay): pass 1 creates, passes 2 and 3 are quiet; "
         "a case is non-trivial when the target has >= 2 keys or a directive; distinct by content")
 ASSUMPTIONS = [
     "no explicit nulls in the target (the property's quantifier); set-directed lists hold scalars (documented "
@@ -346,7 +348,104 @@ def gen_scenarios(ctx: Ctx):
                "delay": delay, "owned": owned, "initial": initial, "decorate_seed": None, "passes": 3}
 
 
+# ---------------------------------------------------------------------------
+# identity-writing templates / overlays / overlayRef functions
+# ---------------------------------------------------------------------------
+
+def _denull_v(v):
+    if v is None:
+        return "nn"
+    if isinstance(v, dict):
+        return {k: _denull_v(w) for k, w in v.items()}
+    if isinstance(v, list):
+        return [_denull_v(w) for w in v]
+    return v
+
+
+def _denull_odoc(d):
+    if isinstance(d, list) and len(d) == 3 and d[0] == "L":
+        return ["L", _denull_v(d[1]), d[2]]
+    if isinstance(d, list):
+        return [_denull_odoc(x) for x in d]
+    return d
+
+
+def identity_scenario(rng):
+    """a C06 adversarial scenario (template, inline overlays and overlayRef functions that set apiVersion / kind /
+    metadata.name / metadata.namespace / metadata to other values), made to fit C04's quantifier: no explicit
+    nulls, no create overlay (it may contradict the target), object absent at the start"""
+    from props import C06
+    sc = C06.adversarial(rng)
+    sc["live"] = None
+    sc["create_overlay"] = None
+    sc["template"] = [sc["template"][0], _denull_v(sc["template"][1])]
+    if sc["overlays"]:
+        for ov in sc["overlays"][1]:
+            ov["body"] = [ov["body"][0], _denull_odoc(ov["body"][1])]
+    return sc
+
+
+def identity_oracle(obs):
+    """pass 1 creates, passes 2 and 3 make no mutating call"""
+    if "prepare_failed" in obs[0]:
+        return "skip"
+    muts = [[c["m"] for c in o["calls"] if c["m"] != "GET"] for o in obs]
+    if muts[0] != ["POST"]:
+        return "skip"                                   # not a create pass (stopped earlier): nothing to say
+    if obs[0]["outcome"]["cls"] != "Retry":
+        return f"the creating pass is {obs[0]['outcome']['cls']}, not Retry"
+    for i, (o, mu) in enumerate(zip(obs[1:], muts[1:]), 2):
+        if o["outcome"]["cls"] == "Raise":
+            return f"pass {i} raised {o['outcome']['exc']}"
+        if mu:
+            return (f"pass {i} made {mu} although pass 1 created the object and nothing changed since "
+                    f"({o['outcome'].get('message')})")
+        if o["outcome"]["cls"] != "Ok":
+            return f"pass {i} made no call but is {o['outcome']['cls']}, not Ok"
+    return None
+
+
+def run_identity_case(ctx: Ctx, sc):
+    import rf_model as m
+    obs, _ = m.run(copy.deepcopy(sc), passes=3)
+    why = identity_oracle(obs)
+    if why == "skip":
+        ctx.count("identity:skipped")
+        return None
+    ctx.note_case({"template": sc["template"], "overlays": sc["overlays"], "name": sc["name"]}, nontrivial=True)
+    ctx.count("identity:" + "/".join(",".join(c["m"] for c in o["calls"] if c["m"] != "GET") or "quiet" for o in obs))
+    return why
+
+
+def run_identity(ctx: Ctx):
+    n = 40 if ctx.quick() else 500
+    for _ in range(n):
+        sc = identity_scenario(ctx.rng)
+        why = run_identity_case(ctx, sc)
+        if why:
+            small = copy.deepcopy(sc)
+            if small["overlays"]:
+                def still(ovs):
+                    c = copy.deepcopy(small)
+                    c["overlays"] = ["List", ovs] if ovs else None
+                    import rf_model as m
+                    o, _ = m.run(c, passes=3)
+                    w = identity_oracle(o)
+                    return bool(w) and w != "skip"
+                ovs = common.shrink_list(small["overlays"][1], still)
+                small["overlays"] = ["List", ovs] if ovs else None
+            ctx.fail(Failure(signature="flow: identity-writing template/overlays: update-loop after create",
+                             what=why, case={"kind": "identity", "sc": small}, observed=why,
+                             expected="pass 1 creates (Retry), passes 2 and 3 make no mutating call and are Ok"))
+
+
 def run_case(ctx: Ctx, case, cases, terms):
+    if case.get("kind") == "identity":
+        why = run_identity_case(ctx, case["sc"])
+        if why:
+            ctx.fail(Failure(signature="flow: identity-writing template/overlays: update-loop after create",
+                             what=why, case=case, observed=why))
+        return
     if case.get("kind") == "scenario":
         run_scenario(ctx, case, cases, terms)
     elif case.get("kind") == "flow":
@@ -375,6 +474,7 @@ def run(ctx: Ctx):
     run_unit(ctx, cases, terms)
     for case in gen_scenarios(ctx):
         run_scenario(ctx, case, cases, terms)
+    run_identity(ctx)
     correspond(ctx, cases, terms)
 
 
